@@ -84,6 +84,7 @@ type Exec struct {
 	paramArgs map[*ssa.Parameter]ssa.Value
 	resolving map[string]bool
 	loopBase int // inlined helper: its loops continue the caller's loop numbering from here
+	retGuards []string // path conditions of the return sites (vacuity guard: some return must be reachable)
 	inlineLoopBase map[*ssa.Function]int
 }
 
@@ -1689,6 +1690,9 @@ func (x *Exec) assignKey(s string) assignItem {
 
 func (x *Exec) returnInstr(in *ssa.Return) {
 	x.retSites++
+	if !x.inlined {
+		x.retGuards = append(x.retGuards, x.guard)
+	}
 	if x.inlined {
 		var rs []Val
 		for _, r := range in.Results {
